@@ -193,6 +193,10 @@ func run(c *lib.Ctx) error {
 			pr = genChain(rng, 100+i) // the reader-gone chain, see gen.go
 			c.Inc("v_readergone_chains", 1)
 		}
+		if i%5 == 3 {
+			pr = genLong(rng, 100+i) // single lines of >= 64 KiB into IterateInputs and line readers, see gen.go
+			c.Inc("v_long_line_pipelines", 1)
+		}
 		res := runPipeline(ev, pr, wd)
 		c.AddEvals(1)
 		if res.infra != nil {
